@@ -41,7 +41,9 @@ pub struct Stats {
     pub max_refill_ratio_x100: u64,
 }
 
-pub const SET_CAP: usize = 30_000_000;
+/// per worker; the merged sets hold at most workers x this (memory: ~40 bytes per entry).
+/// Counts reported from capped sets are lower bounds.
+pub const SET_CAP: usize = 1_500_000;
 
 impl Stats {
     pub fn bump(&mut self, k: &str) {
